@@ -201,6 +201,23 @@ CLAIMED['C12'] = dict(
          'Known finding F4 (records never refreshed around handshakes / unnoticed restarts): wrong records are only '
          'accepted when the ghost explains them. Sampled schedules, not exhaustive on the implementation side.')
 
+CLAIMED['C18'] = dict(
+    engine='Rules',
+    technique='definition-level TLA+ specs Rules.tla (lookup: exact > longest pattern, model chain of 3, supersession, '
+              'domain checks, dependency checks, alias expansion, sign identifiers, # / @ spreading) and Options.tla '
+              '(conversion with fallback, check_options) evaluated by TLC on seeded generated documents / option '
+              'dictionaries + the same inputs resolved by the real Parser / ProcessRules / ApplicationRules / '
+              'SupvisorsOptions of a live instance (with lxml + XSD and without lxml) + # / @ observed through '
+              'get_process_rules on a booted cluster',
+    text='The resolution is a case-rich definition: the specification is transcribed from the documentation, TLC '
+         'computes the admissible result for every generated input (a set where the documentation leaves ties open) and '
+         'the real code must return one of them without raising, for overlapping patterns at both levels, cyclic / '
+         'missing / duplicated models, aliases using each other, in- and out-of-domain values and empty elements.',
+    design_ref='DESIGN.md 3 C18',
+    note='Trusted: the harness tokenises element texts for the specification (integers, lower-cased boolean tokens, raw '
+         'enumeration names); patterns are plain substrings over a 3-letter alphabet (regular-expression operators are '
+         'not generated); one rules file; sampled, not exhaustive.')
+
 PENDING_REASON = 'check not built yet (work in progress; see DESIGN.md section 3)'
 
 
